@@ -4,10 +4,12 @@ package v1alpha1
 
 import (
 	"fmt"
+	"time"
 
 	"github.com/openkruise/rollouts/api/v1beta1"
 	"github.com/openkruise/rollouts/pkg/verifrt"
 	corev1 "k8s.io/api/core/v1"
+	metav1 "k8s.io/apimachinery/pkg/apis/meta/v1"
 	"k8s.io/apimachinery/pkg/util/intstr"
 	gatewayv1beta1 "sigs.k8s.io/gateway-api/apis/v1beta1"
 )
@@ -151,7 +153,8 @@ func c20AlphaRollout(mask int) *Rollout {
 	r.Status.Message = verifrt.String("st.message")
 	if verifrt.Bool("st.hasCondition") {
 		r.Status.Conditions = []RolloutCondition{{Type: RolloutConditionType(verifrt.String("st.cond.type")), Status: "True",
-			Reason: verifrt.String("st.cond.reason"), Message: verifrt.String("st.cond.message")}}
+			Reason: verifrt.String("st.cond.reason"), Message: verifrt.String("st.cond.message"),
+			LastUpdateTime: c20Time(45), LastTransitionTime: c20Time(0)}}
 	}
 	if c20Choose(mask&(vBlocks|vMeta) != 0, "hasCanaryStatus") {
 		r.Status.CanaryStatus = &CanaryStatus{
@@ -307,6 +310,7 @@ func c20RolloutAlphaRoundTrip(mask int) {
 	if len(src.Status.Conditions) == 1 && len(back.Status.Conditions) == 1 {
 		a, b := src.Status.Conditions[0], back.Status.Conditions[0]
 		verifrt.Assert(verifrt.And(a.Type == b.Type, a.Status == b.Status, a.Reason == b.Reason, a.Message == b.Message), "C20.rt.status.conditions.value")
+		verifrt.Assert(a.LastUpdateTime.Equal(&b.LastUpdateTime) && a.LastTransitionTime.Equal(&b.LastTransitionTime), "C20.rt.status.conditions.times")
 	}
 	verifrt.Assert((src.Status.CanaryStatus == nil) == (back.Status.CanaryStatus == nil), "C20.rt.status.canary.presence")
 	if src.Status.CanaryStatus != nil && back.Status.CanaryStatus != nil {
@@ -406,7 +410,8 @@ func c20BetaRollout(varyBlocks bool, mask int) *v1beta1.Rollout {
 	r.Status.Message = verifrt.String("st.message")
 	if verifrt.Bool("st.hasCondition") {
 		r.Status.Conditions = []v1beta1.RolloutCondition{{Type: v1beta1.RolloutConditionType(verifrt.String("st.cond.type")), Status: "True",
-			Reason: verifrt.String("st.cond.reason"), Message: verifrt.String("st.cond.message")}}
+			Reason: verifrt.String("st.cond.reason"), Message: verifrt.String("st.cond.message"),
+			LastUpdateTime: c20Time(45), LastTransitionTime: c20Time(0)}}
 	}
 	if c20Choose(varyBlocks || mask&vMeta != 0, "hasCanaryStatus") {
 		r.Status.CanaryStatus = &v1beta1.CanaryStatus{}
@@ -539,6 +544,7 @@ func c20RolloutBetaRoundTrip(mask int) {
 	if len(src.Status.Conditions) == 1 && len(back.Status.Conditions) == 1 {
 		a, b := src.Status.Conditions[0], back.Status.Conditions[0]
 		verifrt.Assert(verifrt.And(a.Type == b.Type, a.Status == b.Status, a.Reason == b.Reason, a.Message == b.Message), "C20.brt.status.conditions.value")
+		verifrt.Assert(a.LastUpdateTime.Equal(&b.LastUpdateTime) && a.LastTransitionTime.Equal(&b.LastTransitionTime), "C20.brt.status.conditions.times")
 	}
 	verifrt.Assert((src.Status.CanaryStatus == nil) == (back.Status.CanaryStatus == nil), "C20.brt.status.canary.presence")
 	if src.Status.CanaryStatus != nil && back.Status.CanaryStatus != nil {
@@ -727,7 +733,7 @@ func VerifC20_BatchReleaseBetaRoundTrip() {
 		st.CollisionCount = &c
 	}
 	if verifrt.Bool("st.hasCondition") {
-		st.Conditions = []v1beta1.RolloutCondition{{Type: v1beta1.RolloutConditionType(verifrt.String("cond.type")), Status: corev1.ConditionStatus(verifrt.String("cond.status")), Reason: verifrt.String("cond.reason"), Message: verifrt.String("cond.message")}}
+		st.Conditions = []v1beta1.RolloutCondition{{Type: v1beta1.RolloutConditionType(verifrt.String("cond.type")), Status: corev1.ConditionStatus(verifrt.String("cond.status")), Reason: verifrt.String("cond.reason"), Message: verifrt.String("cond.message"), LastUpdateTime: c20Time(45), LastTransitionTime: c20Time(0)}}
 	}
 	st.CanaryStatus.CurrentBatchState = v1beta1.BatchReleaseBatchStateType(verifrt.String("st.batchState"))
 	st.CanaryStatus.CurrentBatch = verifrt.Int32("st.currentBatch")
@@ -790,6 +796,7 @@ func VerifC20_BatchReleaseBetaRoundTrip() {
 	if len(ss.Conditions) == 1 && len(bs.Conditions) == 1 {
 		a, b := ss.Conditions[0], bs.Conditions[0]
 		verifrt.Assert(a.Type == b.Type && a.Status == b.Status && a.Reason == b.Reason && a.Message == b.Message, "C20.br.brt.status.conditions.value")
+		verifrt.Assert(a.LastUpdateTime.Equal(&b.LastUpdateTime) && a.LastTransitionTime.Equal(&b.LastTransitionTime), "C20.br.brt.status.conditions.times")
 	}
 	a, b := ss.CanaryStatus, bs.CanaryStatus
 	verifrt.Assert(a.CurrentBatchState == b.CurrentBatchState && a.CurrentBatch == b.CurrentBatch && a.UpdatedReplicas == b.UpdatedReplicas && a.UpdatedReadyReplicas == b.UpdatedReadyReplicas, "C20.br.brt.status.cursor")
@@ -798,4 +805,11 @@ func VerifC20_BatchReleaseBetaRoundTrip() {
 		verifrt.Assert(*a.NoNeedUpdateReplicas == *b.NoNeedUpdateReplicas, "C20.br.brt.status.noNeed.value")
 	}
 	verifrt.Cover("br-beta-roundtrip-done")
+}
+
+// c20Time: a timestamp `minutes` after a fixed instant of the (symbolic) clock; distinct arguments give distinct times.
+var c20Epoch = time.Now()
+
+func c20Time(minutes int) metav1.Time {
+	return metav1.NewTime(c20Epoch.Add(time.Duration(minutes) * time.Minute))
 }
